@@ -221,6 +221,8 @@ class Gen:
             ds.append('memoize')
         if self.opts.get('checks') and r.random() < 0.35:
             ds.append(('check', [self.hooks_mod, r.choice(['chk_hash2', 'chk_hash3', 'chk_true', 'chk_budget' if self.uctx else 'chk_hash3'])]))
+            while r.random() < 0.35:      # several @check directives on one rule: all are called, in order, until one fails
+                ds.append(('check', [self.hooks_mod, r.choice(['chk_hash2', 'chk_hash3', 'chk_true'])]))
         r.shuffle(ds)
         return ds
 
@@ -598,6 +600,8 @@ def gen_inputs(rng, rules, rule, n, multibyte=False, maxlen=40):
             s = s + rng.choice(alpha)
         else:
             s = ''.join(rng.choice(alpha) for _ in range(rng.randint(1, 6)))
+        if multibyte and rng.random() < 0.06:
+            s = '\ufeff' + s          # a byte order mark is an ordinary character of the input (offsets count its 3 bytes)
         if len(s.encode()) > maxlen or s in seen:
             continue
         try:
